@@ -292,6 +292,27 @@ func socketFDs() map[string]bool {
 	return out
 }
 
+// portHeldBySelf tells whether a socket of this very process is bound to the local port (a port that cannot be bound
+// again may also have been taken by another process in the meantime: that is not the node's doing).
+func portHeldBySelf(proto string, port int) bool {
+	mine := socketFDs()
+	data, err := os.ReadFile("/proc/net/" + proto)
+	if err != nil {
+		return true
+	}
+	want := fmt.Sprintf(":%04X", port)
+	for _, line := range strings.Split(string(data), "\n") {
+		fs := strings.Fields(line)
+		if len(fs) < 10 || !strings.HasSuffix(fs[1], want) {
+			continue
+		}
+		if mine["socket:["+fs[9]+"]"] {
+			return true
+		}
+	}
+	return false
+}
+
 // describeSockets looks the inodes up in /proc/net/{tcp,udp}.
 func describeSockets(inodes []string) []string {
 	var out []string
@@ -342,7 +363,11 @@ func (e *c12env) checkReleased(rep *vh.Report, where string, closeReturned bool)
 	for _, p := range e.tcpPorts {
 		ln, err := net.Listen("tcp4", fmt.Sprintf("127.0.0.1:%d", p))
 		if err != nil {
-			rep.Violation("what=port:tcp", "TCP port still bound after Close returned: "+err.Error(), wit)
+			if portHeldBySelf("tcp", p) {
+				rep.Violation("what=port:tcp", "TCP port still bound after Close returned: "+err.Error(), wit)
+			} else {
+				rep.Count("ports_taken_by_another_process_meanwhile", 1) // ports are picked from the ephemeral range; other checks run next to this one
+			}
 		} else {
 			ln.Close()
 		}
@@ -350,7 +375,11 @@ func (e *c12env) checkReleased(rep *vh.Report, where string, closeReturned bool)
 	for _, p := range e.udpPorts {
 		pc, err := net.ListenPacket("udp4", fmt.Sprintf("127.0.0.1:%d", p))
 		if err != nil {
-			rep.Violation("what=port:udp", "UDP port still bound after Close returned: "+err.Error(), wit)
+			if portHeldBySelf("udp", p) {
+				rep.Violation("what=port:udp", "UDP port still bound after Close returned: "+err.Error(), wit)
+			} else {
+				rep.Count("ports_taken_by_another_process_meanwhile", 1)
+			}
 		} else {
 			pc.Close()
 		}
@@ -645,7 +674,7 @@ func TestC12(t *testing.T) {
 		"fake serial, serial in back-off, blocked writer, all mixed; traffic both ways, 3 ms heartbeats, stream requests) a discovery run records which hook points are reached; then for each reached point and " +
 		"occurrence k <= K the scenario is re-run and Node.Close is called while the goroutine that hit (point,k) is held, released 0 / 200 us / 1 ms later; x consumer {running, stopped before Close} x {0,3} " +
 		"goroutines hammering Write*. Monitors: Close returns (goroutine-dump criterion), no library goroutine left, ports re-bindable, peers see EOF, custom / serial transports closed exactly once, " +
-		"Events() range ends, writes return, no panic; plus failed-Initialize configurations. distinct = (scenario, point, occurrence, consumer, writers) placements whose trap was reached")
+		"Events() range ends, writes return, no panic, no socket of the scenario left in /proc/self/fd; plus failed-Initialize configurations; plus, in a child process of its own, three nodes closed after 31.5 s of life (the 30 s housekeeping has run: without / with ArduPilot senders / silent). distinct = (scenario, point, occurrence, consumer, writers) placements whose trap was reached")
 	rep.Assume("fault model: a transport's blocked Read/Write is released by its Close (every real connection behaves so)")
 	seed := shardSeed()
 	shard, nsh := shardInfo()
@@ -660,7 +689,13 @@ func TestC12(t *testing.T) {
 	groups := [][]string{{"custom", "blocked-writer"}, {"tcp-server"}, {"tcp-client", "tcp-client-refused"}, {"udp-client", "udp-broadcast"},
 		{"serial", "serial-backoff"}, {"udp-server"}, {"mixed"}}
 	kinds := c12kinds
-	byGroup := nsh == len(groups)
+	byGroup := nsh == len(groups) || nsh == len(groups)+1
+	if nsh == len(groups)+1 && shard == nsh-1 {
+		// a child process of its own: nodes that have been up for longer than the library's 30 s housekeeping period
+		c12long(rep)
+		rep.Floor("long_lived_nodes_closed", 3)
+		return
+	}
 	if byGroup {
 		kinds = groups[shard]
 	}
@@ -758,6 +793,119 @@ func TestC12(t *testing.T) {
 
 var stuckFlag int32
 
+// c12long: three nodes that live for 31.5 s (the stream-request housekeeping runs every 30 s on a constant of the
+// library): (a) no ArduPilot sender until after the first housekeeping run, then heartbeats on two channels, (b) ArduPilot
+// senders from the start, (c) no traffic at all. Then Close: returns, leaves no goroutine, releases the port, closes the
+// custom transports once, ends the event stream.
+func c12long(rep *vh.Report) {
+	type ln struct {
+		name string
+		node *gomavlib.Node
+		trs  []*fake.Transport
+		port int
+		conn net.Conn
+	}
+	mk := func(name string) *ln {
+		l := &ln{name: name, port: freeTCPPort()}
+		l.trs = []*fake.Transport{fake.NewTransport(name + "0"), fake.NewTransport(name + "1")}
+		l.node = &gomavlib.Node{Endpoints: []gomavlib.EndpointConf{gomavlib.EndpointCustom{ReadWriteCloser: l.trs[0]}, gomavlib.EndpointCustom{ReadWriteCloser: l.trs[1]},
+			gomavlib.EndpointTCPServer{Address: fmt.Sprintf("127.0.0.1:%d", l.port)}},
+			Dialect: testDialect, OutVersion: gomavlib.V2, OutSystemID: 13, HeartbeatPeriod: 200 * time.Millisecond, StreamRequestEnable: true, IdleTimeout: 60 * time.Second}
+		if err := l.node.Initialize(); err != nil {
+			rep.Inconclusive("C12 long: " + err.Error())
+			return nil
+		}
+		go func() {
+			for range l.node.Events() {
+			}
+		}()
+		if c, err := net.Dial("tcp4", fmt.Sprintf("127.0.0.1:%d", l.port)); err == nil {
+			l.conn = c
+			go func() { _, _ = io.Copy(io.Discard, c) }()
+		}
+		return l
+	}
+	socketsBefore := socketFDs()
+	nodes := []*ln{mk("quiet-then-ardupilot"), mk("ardupilot-throughout"), mk("silent")}
+	for _, l := range nodes {
+		if l == nil {
+			return
+		}
+	}
+	start := time.Now()
+	for i := 0; time.Since(start) < 31500*time.Millisecond; i++ {
+		late := time.Since(start) > 30500*time.Millisecond
+		// (a): other traffic first, ArduPilot heartbeats only after the first housekeeping run
+		a := nodes[0]
+		a.trs[0].Feed(uidFrame(uint64(i), byte(i), 3, false, nil, 0))
+		a.trs[1].Feed(hbFrame(9, 9, 8, 0)) // not an ArduPilot
+		if late {
+			a.trs[0].Feed(hbFrame(byte(1+i%200), 1, 3, 0))
+			a.trs[1].Feed(hbFrame(byte(1+i%200), 2, 3, 0))
+			if a.conn != nil {
+				_, _ = a.conn.Write(hbFrame(byte(1+i%200), 3, 3, 0))
+			}
+		}
+		// (b): ArduPilot senders all the time (new ones now and then)
+		b := nodes[1]
+		b.trs[0].Feed(hbFrame(byte(1+i/20%200), 1, 3, 0))
+		if b.conn != nil {
+			_, _ = b.conn.Write(hbFrame(byte(1+i/20%200), 2, 3, 0))
+		}
+		time.Sleep(50 * time.Millisecond)
+	}
+	for _, l := range nodes {
+		closed := make(chan struct{})
+		go func() { l.node.Close(); close(closed) }()
+		select {
+		case <-closed:
+			rep.Count("long_lived_nodes_closed", 1)
+		case <-time.After(10 * time.Second):
+			rep.Violation("what=close-stuck@long:"+l.name, "Node.Close did not return within 10 s on a node that had been up for 31.5 s (all timers <= 200 ms)",
+				map[string]interface{}{"scenario": "long:" + l.name, "goroutines": strings.Join(libGoroutines(), "\n\n")})
+			return
+		}
+		for _, tr := range l.trs {
+			if n := tr.Closes(); n != 1 {
+				rep.Violation(fmt.Sprintf("what=close-count=%d", n), fmt.Sprintf("custom transport closed %d times (exactly once expected) on a long-lived node", n), map[string]interface{}{"scenario": "long:" + l.name})
+			}
+		}
+		if x, err := net.Listen("tcp4", fmt.Sprintf("127.0.0.1:%d", l.port)); err != nil {
+			if portHeldBySelf("tcp", l.port) {
+				rep.Violation("what=port:tcp", "TCP port still bound after Close returned (long-lived node)", map[string]interface{}{"scenario": "long:" + l.name})
+			}
+		} else {
+			x.Close()
+		}
+		if l.conn != nil {
+			l.conn.Close()
+		}
+		rep.Eval(1)
+	}
+	left := waitNoLibGoroutines(func(g string) bool {
+		return strings.Contains(g, "verifharness/nodeprops") && !strings.Contains(g, "gomavlib/v3.(*")
+	}, 30*time.Millisecond)
+	for _, g := range left {
+		rep.Violation("what=leak:"+topFrame(g), "a goroutine started by a long-lived node is still alive after Close returned", map[string]interface{}{"scenario": "long", "goroutine": g})
+	}
+	var leaked []string
+	for i := 0; i < 60; i++ {
+		leaked = leaked[:0]
+		for s := range socketFDs() {
+			if !socketsBefore[s] {
+				leaked = append(leaked, s)
+			}
+		}
+		if len(leaked) == 0 {
+			break
+		}
+		time.Sleep(50 * time.Millisecond)
+	}
+	if len(leaked) > 0 {
+		rep.Violation("what=port:fd", fmt.Sprintf("%d socket(s) of long-lived nodes still held 3 s after Close", len(leaked)), map[string]interface{}{"sockets": describeSockets(leaked)})
+	}
+}
+
 func repExtraBool(rep *vh.Report, name string) (bool, bool) {
 	return rep.ExtraBool(name)
 }
@@ -835,12 +983,16 @@ func c12failedInit(rep *vh.Report, r *vh.RNG) {
 		}
 		rep.Count("odd_option_configs_refused", 1)
 		wit := map[string]interface{}{"case": fmt.Sprintf("odd-options-%d", oi), "error": ierr.Error()}
-		if ln, err := net.Listen("tcp4", fmt.Sprintf("127.0.0.1:%d", tp)); err != nil {
+		if ln, err := net.Listen("tcp4", fmt.Sprintf("127.0.0.1:%d", tp)); err != nil && !portHeldBySelf("tcp", tp) {
+			rep.Count("ports_taken_by_another_process_meanwhile", 1)
+		} else if err != nil {
 			rep.Violation("what=init-leak:odd-options", "a failed Initialize left a TCP listener behind", wit)
 		} else {
 			ln.Close()
 		}
-		if pc, err := net.ListenPacket("udp4", fmt.Sprintf("127.0.0.1:%d", up)); err != nil {
+		if pc, err := net.ListenPacket("udp4", fmt.Sprintf("127.0.0.1:%d", up)); err != nil && !portHeldBySelf("udp", up) {
+			rep.Count("ports_taken_by_another_process_meanwhile", 1)
+		} else if err != nil {
 			rep.Violation("what=init-leak:odd-options", "a failed Initialize left a UDP socket behind", wit)
 		} else {
 			pc.Close()
@@ -883,12 +1035,16 @@ func c12failedInit(rep *vh.Report, r *vh.RNG) {
 				node.Close()
 				continue
 			}
-			if ln, err := net.Listen("tcp4", fmt.Sprintf("127.0.0.1:%d", tp)); err != nil {
+			if ln, err := net.Listen("tcp4", fmt.Sprintf("127.0.0.1:%d", tp)); err != nil && !portHeldBySelf("tcp", tp) {
+				rep.Count("ports_taken_by_another_process_meanwhile", 1)
+			} else if err != nil {
 				rep.Violation("what=init-leak:"+c.name, "a failed Initialize left a TCP listener behind", wit)
 			} else {
 				ln.Close()
 			}
-			if pc, err := net.ListenPacket("udp4", fmt.Sprintf("127.0.0.1:%d", up)); err != nil {
+			if pc, err := net.ListenPacket("udp4", fmt.Sprintf("127.0.0.1:%d", up)); err != nil && !portHeldBySelf("udp", up) {
+				rep.Count("ports_taken_by_another_process_meanwhile", 1)
+			} else if err != nil {
 				rep.Violation("what=init-leak:"+c.name, "a failed Initialize left a UDP socket behind", wit)
 			} else {
 				pc.Close()
